@@ -210,6 +210,32 @@ def run(ctx):
                 md[k] = rv
         judge(ctx, matcher, flt, md, 'random')
 
+    # ---- one filter object used, modified in place, used again (a script doing query['customer'] = next_customer) ---------------
+    for i in range(ctx.budget(400, 20000)):
+        flt = {k: gen_filter_value(rng) for k in rng.sample(['k', 'j', 'm'], rng.randrange(1, 3))}
+        md = {}
+        for k in ['k', 'j', 'm']:
+            rv = gen_recorded(rng)
+            if rv is not ABSENT:
+                md[k] = rv
+        judge(ctx, matcher, flt, md, 'reused-filter-object')
+        for step in range(3):
+            r = rng.random()
+            if r < 0.4 and flt:
+                flt[rng.choice(sorted(flt))] = gen_filter_value(rng)        # another value under the same key
+            elif r < 0.7:
+                flt[rng.choice(['k', 'j', 'm', 'z'])] = gen_filter_value(rng)
+            elif len(flt) > 1:
+                del flt[rng.choice(sorted(flt))]
+            else:
+                v = flt[sorted(flt)[0]]
+                if isinstance(v, list):
+                    v.append(gen_filter_value(rng, 0))                 # an alternative added to the list the filter holds
+                else:
+                    flt['m'] = None
+            judge(ctx, matcher, flt, md, 'reused-filter-object-after-change')
+            ctx.count('matches_with_a_filter_object_changed_in_place')
+
     # ---- listings through every cassette --------------------------------------------------------------
     nl = ctx.budget(12, 2000)
     for li in range(nl):
